@@ -89,3 +89,283 @@ Definition parse_c15 (s : bytes) : option TL.tref :=
   | Ok (TR.PT t) => Some (of15 t)
   | _ => None
   end.
+
+(* ------------------------------------------------------------------------------------------ *)
+(* Part 2 — C09's scanners with the tracker state threaded through                              *)
+(* ------------------------------------------------------------------------------------------ *)
+(* Model/Snippet.v treats what an argument renders to as a value [res bytes].  In the code an
+   argument is rendered AT THE MOMENT the scanner reaches its placeholder / verb (Frag returns a
+   lazy iter.Seq), and rendering a Value / ID / PkgExpose leaf calls ImportTracker.AddType: an
+   argument that is bound but never referenced registers nothing, one that is referenced twice is
+   rendered twice (the second time against the state the first left).  So here an argument is a
+   state transformer [St -> res (bytes * St)]; the loops are those of Model/Snippet.v for the
+   repaired code ([all_fixed] — the tree this development checks has every fixes/C09-*.diff in),
+   same names with the suffix _st.  [St] is generic (the proofs never look into it). *)
+Require Gengo.Model.Snippet.
+Module Sn := Gengo.Model.Snippet.
+
+Section Stateful.
+  Variable St : Type.
+
+  Definition rs := St -> res (bytes * St).
+
+  Definition ret_st (b : bytes) : rs := fun e => Ok (b, e).
+  Definition panic_st : rs := fun _ => Panic.
+  Definition emit_st (b : bytes) (k : rs) : rs := fun e => let! (r, e') := k e in Ok (b ++ r, e').
+  Definition emitr_st (o k : rs) : rs :=
+    fun e => let! (a, e1) := o e in let! (r, e2) := k e1 in Ok (a ++ r, e2).
+
+  (* what a scanner knows about an argument (Sn.aview / Sn.sview with state) *)
+  Inductive aview_st := AVNilS | AVS (isnil : bool) (out : rs).
+  Inductive sview_st := SVSnipS (out : rs) | SVRawS (vlit tid : rs).
+
+  Section TemplateSt.
+    Variable args : list (bytes * aview_st).
+
+    (* printer__template.go:136-146 *)
+    Definition tail_st (named_nonempty : bool) (c : option ascii) (k : rs) : rs :=
+      match c with
+      | None => ret_st []
+      | Some c =>
+          if Ascii.eqb c Sn.c_at then k
+          else if Ascii.eqb c Sn.c_apos then (if negb named_nonempty then emit_st [c] k else k)
+          else emit_st [c] k
+      end.
+
+    (* printer__template.go:118-134 *)
+    Definition after_name_st (named : bytes) (c : option ascii) (k : rs) : rs :=
+      match named with
+      | [] => emit_st [Sn.c_at] (tail_st false c k)
+      | _ =>
+          match Sn.lookup named args with
+          | None => panic_st                                   (* missing named arg *)
+          | Some AVNilS => tail_st true c k                    (* v == nil *)
+          | Some (AVS isnil out) =>
+              if isnil then tail_st true c k else emitr_st out (tail_st true c k)
+          end
+      end.
+
+    Fixpoint scan_st (s : bytes) : rs :=
+      match s with
+      | [] => ret_st []
+      | c :: r => if Ascii.eqb c Sn.c_at then name_loop_st r [] else emit_st [c] (scan_st r)
+      end
+    with name_loop_st (r : bytes) (named : bytes) : rs :=
+      match r with
+      | [] => after_name_st named None (ret_st [])
+      | c :: r' =>
+          if Ascii.eqb c Sn.c_apos then after_name_st named (Some c) (scan_st r')
+          else if Sn.is_name c then name_loop_st r' (named ++ [c])
+          else after_name_st named (Some c) (if Ascii.eqb c Sn.c_at then name_loop_st r' [] else scan_st r')
+      end.
+
+    Definition tpl_st (format : bytes) : rs := scan_st (Sn.sc_view (Sn.trim_nl format)).
+  End TemplateSt.
+
+  (* printer.go:49-108 *)
+  Fixpoint sp_scan_st (s : bytes) (args : list sview_st) {struct s} : rs :=
+    match s with
+    | [] => ret_st []
+    | c :: r =>
+        if Ascii.eqb c Sn.c_pct then
+          match r with
+          | [] => panic_st
+          | d :: r' =>
+              if Ascii.eqb d Sn.c_T then
+                match args with
+                | [] => panic_st
+                | a :: args' => emitr_st (match a with SVSnipS o => o | SVRawS _ t => t end) (sp_scan_st r' args')
+                end
+              else if Ascii.eqb d Sn.c_v then
+                match args with
+                | [] => panic_st
+                | a :: args' => emitr_st (match a with SVSnipS o => o | SVRawS v _ => v end) (sp_scan_st r' args')
+                end
+              else if Ascii.eqb d Sn.c_pct then emit_st [Sn.c_pct] (sp_scan_st r' args)
+              else panic_st
+          end
+        else emit_st [c] (sp_scan_st r args)
+    end.
+  Definition sp_st (format : bytes) (args : list sview_st) : rs := sp_scan_st (Sn.sc_view format) args.
+
+  (* ---- the term language: Sn.snip with structured leaves ---- *)
+  Variable leaf : Type.                  (* Value(x) / ID(x) / PkgExpose(p, n) as a snippet *)
+  Variable raw : Type.                   (* a non-Snippet argument of Sprintf *)
+  Variable leaf_isnil : leaf -> bool.    (* IsNil() *)
+  Variable leaf_frag : leaf -> rs.       (* Frag, forced *)
+  Variable raw_v : raw -> rs.            (* Value(x).Frag : what %v does with it *)
+  Variable raw_t : raw -> rs.            (* ID(x).Frag    : what %T does with it *)
+
+  Inductive rsnip :=
+  | RNil
+  | RBlock (b : bytes)
+  | RT (f : bytes) (args : list (bytes * rsnip))
+  | RSprintf (f : bytes) (args : list rsnip)       (* an [RRaw] element is a non-Snippet argument *)
+  | RRaw (a : raw)                                 (* ONLY as a Sprintf argument *)
+  | RComment (v : bytes)
+  | RDirective (d : bytes) (args : list bytes)
+  | RSnippets (l : list rsnip)
+  | RFragments (s : rsnip)
+  | RLeaf (l : leaf).
+
+  Definition risnil_of (s : rsnip) : bool :=
+    match s with
+    | RNil => true
+    | RBlock b => is_nil b
+    | RT f _ => is_nil f
+    | RSprintf f _ => is_nil f
+    | RLeaf l => leaf_isnil l
+    | _ => false
+    end.
+
+  Definition view_of_st (fr : rsnip -> rs) (v : rsnip) : aview_st :=
+    match v with
+    | RNil => AVNilS
+    | _ => AVS (risnil_of v) (fr v)
+    end.
+
+  Definition sview_of_st (fr : rsnip -> rs) (v : rsnip) : sview_st :=
+    match v with
+    | RRaw a => SVRawS (raw_v a) (raw_t a)
+    | _ => SVSnipS (fr v)
+    end.
+
+  (* snippet.go:37-51 (repaired: a nil element is skipped) *)
+  Definition snippets_loop_st (fr : rsnip -> rs) : list rsnip -> rs :=
+    fix go (l : list rsnip) : rs :=
+      match l with
+      | [] => ret_st []
+      | c :: r => if risnil_of c then go r else emitr_st (fr c) (go r)
+      end.
+
+  Fixpoint rfrag (s : rsnip) : rs :=
+    match s with
+    | RNil => panic_st
+    | RBlock b => ret_st b
+    | RT f args => tpl_st (map (fun p => (fst p, view_of_st rfrag (snd p))) args) f
+    | RSprintf f args => sp_st f (map (sview_of_st rfrag) args)
+    | RRaw _ => panic_st
+    | RComment v => ret_st (Sn.comment_impl v)
+    | RDirective d args => ret_st (Sn.directive_impl d args)
+    | RSnippets l => snippets_loop_st rfrag l
+    | RFragments x => if risnil_of x then ret_st [] else rfrag x
+    | RLeaf l => leaf_frag l
+    end.
+
+  (* snippetWriter.Render *)
+  Definition rrender (s : rsnip) : rs :=
+    match s with
+    | RNil => ret_st []
+    | _ => if risnil_of s then ret_st [] else rfrag s
+    end.
+
+  (* a sequence of Render calls into one writer: the body of a generated file *)
+  Fixpoint rrender_all (l : list rsnip) : rs :=
+    match l with
+    | [] => ret_st []
+    | s :: r => emitr_st (rrender s) (rrender_all r)
+    end.
+
+  (* ---- erasure: the C09 term whose observed sub-renderings are what the leaves render to in [tbl] ---- *)
+  Definition r2o (r : res (bytes * St)) : option bytes := match r with Ok (b, _) => Some b | _ => None end.
+
+  Fixpoint erase (tbl : St) (s : rsnip) : Sn.snip :=
+    match s with
+    | RNil => Sn.SNil
+    | RBlock b => Sn.SBlock b
+    | RT f args => Sn.ST f (map (fun p => (fst p, erase tbl (snd p))) args)
+    | RSprintf f args => Sn.SSprintf f (map (erase tbl) args)
+    | RRaw a => Sn.SVal (r2o (raw_v a tbl)) (r2o (raw_t a tbl))
+    | RComment v => Sn.SComment v
+    | RDirective d args => Sn.SDirective d args
+    | RSnippets l => Sn.SSnippets (map (erase tbl) l)
+    | RFragments x => Sn.SFragments (erase tbl x)
+    | RLeaf l => Sn.SOpaque (leaf_isnil l) (r2o (leaf_frag l tbl))
+    end.
+End Stateful.
+
+(* ---- the declarative side, with state: C09's tokenise-then-substitute (Model/SnippetSpec.v) where a hole /
+   a verb stands for a state transformer.  Nothing here follows the scanner loops. ---- *)
+Require Gengo.Model.SnippetSpec.
+Module SS := Gengo.Model.SnippetSpec.
+
+Section StatefulSpec.
+  Variable St : Type.
+  Notation rs := (rs St).
+
+  Definition piece_st (args : list (bytes * aview_st St)) (t : SS.tok) : rs :=
+    match t with
+    | SS.Lit c => ret_st St [c]
+    | SS.Hole n _ =>
+        match Sn.lookup n args with
+        | None => panic_st St
+        | Some (AVNilS _) => ret_st St []
+        | Some (AVS _ isnil out) => if isnil then ret_st St [] else out
+        end
+    end.
+  Fixpoint subst_st (args : list (bytes * aview_st St)) (ts : list SS.tok) : rs :=
+    match ts with
+    | [] => ret_st St []
+    | t :: r => emitr_st St (piece_st args t) (subst_st args r)
+    end.
+
+  Fixpoint ssubst_st (ts : list SS.stok) (args : list (sview_st St)) : rs :=
+    match ts with
+    | [] => ret_st St []
+    | t :: r =>
+        match t with
+        | SS.KLit c => emit_st St [c] (ssubst_st r args)
+        | SS.KPct => emit_st St [Sn.c_pct] (ssubst_st r args)
+        | SS.KV => match args with
+                   | [] => panic_st St
+                   | a :: args' => emitr_st St (match a with SVSnipS _ o => o | SVRawS _ v _ => v end) (ssubst_st r args')
+                   end
+        | SS.KT => match args with
+                   | [] => panic_st St
+                   | a :: args' => emitr_st St (match a with SVSnipS _ o => o | SVRawS _ _ t => t end) (ssubst_st r args')
+                   end
+        | SS.KBad _ => panic_st St
+        end
+    end.
+
+  (* ---- which packages a term refers to: the packages of the leaves that are RENDERED — a leaf bound to a name
+     no placeholder mentions, or left over after the last verb, is not; one mentioned twice counts once (sets) ---- *)
+  Variables leaf raw : Type.
+  Variable leaf_isnil : leaf -> bool.
+  Variable leaf_pkgs : leaf -> list bytes.        (* foreign packages a leaf refers to *)
+  Variable raw_v_pkgs raw_t_pkgs : raw -> list bytes.   (* ... a raw argument under %v / under %T *)
+  Notation rsnip := (rsnip leaf raw).
+
+  (* packages per verb: the verbs consume the arguments left to right *)
+  Fixpoint verb_pkgs (ts : list SS.stok) (args : list (list bytes * list bytes)) : list bytes :=
+    match ts with
+    | [] => []
+    | SS.KV :: r => match args with [] => [] | a :: args' => fst a ++ verb_pkgs r args' end
+    | SS.KT :: r => match args with [] => [] | a :: args' => snd a ++ verb_pkgs r args' end
+    | SS.KBad _ :: _ => []
+    | _ :: r => verb_pkgs r args
+    end.
+
+  Fixpoint rpkgs (s : rsnip) : list bytes :=
+    match s with
+    | RT _ _ f args =>
+        let tbl := map (fun p => (fst p, if risnil_of leaf raw leaf_isnil (snd p) then [] else rpkgs (snd p))) args in
+        flat_map (fun t => match t with
+                           | SS.Hole n _ => match Sn.lookup n tbl with Some l => l | None => [] end
+                           | SS.Lit _ => []
+                           end) (SS.tokenize (Sn.sc_view (Sn.trim_nl f)))
+    | RSprintf _ _ f args =>
+        verb_pkgs (SS.stokenize (Sn.sc_view f))
+          (map (fun a => match a with
+                         | RRaw _ _ x => (raw_v_pkgs x, raw_t_pkgs x)
+                         | _ => (rpkgs a, rpkgs a)
+                         end) args)
+    | RSnippets _ _ l => flat_map (fun c => if risnil_of leaf raw leaf_isnil c then [] else rpkgs c) l
+    | RFragments _ _ x => if risnil_of leaf raw leaf_isnil x then [] else rpkgs x
+    | RLeaf _ _ l => leaf_pkgs l
+    | _ => []
+    end.
+
+  Definition rpkgs_render (s : rsnip) : list bytes :=
+    if risnil_of leaf raw leaf_isnil s then [] else rpkgs s.
+End StatefulSpec.
